@@ -284,6 +284,10 @@ fn main() {
         let off = f["off"].as_u64().unwrap_or(0);
         let len = f["len"].as_u64().unwrap_or(PAGE as u64) as usize;
         let prot = if f["exec"].as_bool().unwrap_or(false) { libc::PROT_READ | libc::PROT_EXEC } else { libc::PROT_READ };
+        // "gap_before": one page of ordinary anonymous memory is mapped first, so that this file's lines do not touch the previous mapping's
+        if f["gap_before"].as_bool().unwrap_or(false) {
+            unsafe { libc::mmap(std::ptr::null_mut(), PAGE, libc::PROT_READ | libc::PROT_WRITE, libc::MAP_PRIVATE | libc::MAP_ANONYMOUS, -1, 0) };
+        }
         match std::fs::File::open(p) {
             Ok(fh) => {
                 // "guard_after": n pages of inaccessible anonymous memory directly after the file mapping (the reservation a
@@ -309,6 +313,10 @@ fn main() {
                 }
                 if f["delete"].as_bool().unwrap_or(false) {
                     let _ = std::fs::remove_file(p);
+                }
+                // "recreate_from": after the deletion another file takes the path (a library replaced by an update while it is loaded)
+                if let Some(src) = f["recreate_from"].as_str() {
+                    let _ = std::fs::copy(src, p);
                 }
             }
             Err(e) => fmaps.push(json!({"path": p.to_string_lossy(), "error": e.to_string()})),
